@@ -91,6 +91,11 @@ func verifyUnit(env *Env, key string, fn *ssa.Function, opts UnitOpts) (u *Unit)
 	}
 	fr.old = st.clone()
 	vars := x.frameVars(fr)
+	for _, ax := range env.con.Axioms {
+		ce := &cenv{x: x, st: st, old: st, vars: map[string]cvar{}}
+		x.assume(st, ce.evalBool(ax.Expr))
+		x.note("axiom (global initialised once, never reassigned): " + ax.Src)
+	}
 	if con != nil {
 		ce := &cenv{x: x, st: st, old: fr.old, vars: vars}
 		for _, cl := range con.Requires {
